@@ -79,6 +79,20 @@ theorem tunnelled_only_over_ready_exit_circuit (s : State) (ops : List Op) :
   | notify b q => simp [step, notify] at hmem
   | _ => simp [step] at hmem <;> (split at hmem <;> simp at hmem)
 
+/-- **Only `send` drains the queue.**  No other event — a circuit completing or closing, attach / detach, a toggle, an
+    overlay loading or unloading, a delivery — removes a waiting packet or hands anything to `send_data`: whatever
+    leaves the queue does so inside a `send`, hence (previous theorem) over a usable circuit of the configured length.
+    (Code outside `TunnelEndpoint` that flushes `send_queue` is outside this model; the harness judges such a flush by
+    the same circuit criteria and reports the difference as a broken correspondence.) -/
+theorem queue_only_drained_by_send (s : State) (o : Op) (hs : ∀ a p, o ≠ .send a p) :
+    (step s o).1.queue = s.queue ∧ ∀ cid t d p, Event.data cid t d p ∉ (step s o).2 := by
+  refine ⟨(step_queue_nonsend s o hs).1, ?_⟩
+  intro cid t d p hmem
+  cases o with
+  | send a q => exact hs a q rfl
+  | notify b q => simp [step, notify] at hmem
+  | _ => simp [step] at hmem <;> (split at hmem <;> simp at hmem)
+
 /-- **A circuit that is being torn down is ineligible at once.**  From the moment `remove_circuit(cid)` has been
     requested (destroy sent, `Circuit.close()` — this is also what `on_destroy` and `do_remove` trigger), through
     every later interleaving of sends, anonymity toggles, attach/detach, other circuits appearing / extending /
